@@ -375,6 +375,8 @@ def _argtok(a):
         return a if a else "_"
     if isinstance(a, list):
         return "[" + ";".join(_argtok(x) for x in a) + "]"
+    if isinstance(a, dict) and "__set__" not in a and "__fn__" not in a:
+        return "(" + ";".join("%s=%s" % (k, _argtok(v)) for k, v in sorted(a.items())) + ")"
     if isinstance(a, dict) and "__set__" in a:
         return "{" + ";".join(sorted(_argtok(x) for x in a["__set__"])) + "}"
     raise ValueError("unsupported edge arg %r" % (a,))
